@@ -66,7 +66,7 @@ func fromMultihash(ctx context.Context, services coreiface.CoreAPI, hash cid.Cid
 	if options.Length != nil && *options.Length > -1 {
 		sorting.Sort(sortFn, entries, false)
 
-		entries = entrySlice(entries, -*options.Length)
+		entries = lastEntries(entries, *options.Length)
 	}
 
 	var heads []cid.Cid
@@ -207,6 +207,15 @@ func fromEntry(ctx context.Context, services coreiface.CoreAPI, sourceEntries []
 		ID:     result[len(result)-1].GetLogID(),
 		Values: result,
 	}, nil
+}
+
+// lastEntries returns the last n entries, none when n is zero.
+func lastEntries(entries []iface.IPFSLogEntry, n int) []iface.IPFSLogEntry {
+	if n <= 0 {
+		return []iface.IPFSLogEntry{}
+	}
+
+	return entrySlice(entries, -n)
 }
 
 func entrySlice(entries []iface.IPFSLogEntry, index int) []iface.IPFSLogEntry {
